@@ -50,6 +50,7 @@ class Script:
         self.case = None
         self.events = None
         self.chlog = []
+        self.tolog = []       # the timeout argument the pager passed to its wrapped method (pages >= 2): exact value
         self.kwlog = []       # keyword arguments the pager passed to its wrapped method (pages >= 2), see spy()
         self.served = 0
         self.issued = ''
@@ -89,8 +90,13 @@ class Script:
         # page it is the caller's own argument
         first = not any(e['ev'] in ('first', 'fetch') for e in self.events)
         rk = c.get('retry', 'default') if first or not self.kwlog else self.kwlog[-1]
+        tov = None if to is None else round(to)
+        if not first and self.tolog and c.get('timeout') is not None and isinstance(self.tolog[-1], (int, float)) \
+                and not isinstance(self.tolog[-1], bool) and self.tolog[-1] != float(c['timeout']):
+            # the channel sees time-to-deadline values (rounded above); what the pager itself hands on must be the caller's number
+            tov = 'pager-passed:%r' % (self.tolog[-1],)
         opts = canon({'md': sorted([k, v] for k, v in md if k.startswith('x-verif')),
-                      'timeout': None if to is None else round(to), 'retry': rk})
+                      'timeout': tov, 'retry': rk})
         expected_path = f"/{self.pl['pkg']}.{self.pl['service']}/{m['name']}"
         ev = dict(ev='first' if not any(e['ev'] in ('first', 'fetch') for e in self.events) else 'fetch',
                   token=tnum, others=canon(req) if path == expected_path else 'WRONG-PATH:' + path,
@@ -133,8 +139,23 @@ def spy(script, pager):
 
         def wrapped(*a, **kw):
             script.kwlog.append(retry_kind(kw['retry']) if 'retry' in kw else 'absent')
+            script.tolog.append(kw.get('timeout', 'absent'))
             return orig(*a, **kw)
         pager._method = wrapped
+
+
+def caller_moves_on(c):
+    """the call has returned: the request message is the caller's again.  In the second listing with a re-used request object the
+    caller edits it (preparing the next listing) BEFORE consuming the pager; the listing already started must not notice."""
+    obj = c.get('_reqobj')
+    if obj is None or not c['id'].endswith(':again'):
+        return lambda: None
+    old = obj.parent
+    obj.parent = 'shelves/the-next-listing'
+
+    def undo():
+        obj.parent = old
+    return undo
 
 
 def run_sync(pl, script, client, mod, c):
@@ -152,8 +173,12 @@ def run_sync(pl, script, client, mod, c):
     kw.update(retry_arg(c, False))
     pager = getattr(client, m['snake'])(request=(c.get('_reqobj') if c.get('_reqobj') is not None else base), **kw)
     spy(script, pager)
-    for x in pager:
-        events.append(dict(ev='yield', item=item_id(c['kind'], x), attr=int(pager.total), token=0, others='', opts=''))
+    undo = caller_moves_on(c)
+    try:
+        for x in pager:
+            events.append(dict(ev='yield', item=item_id(c['kind'], x), attr=int(pager.total), token=0, others='', opts=''))
+    finally:
+        undo()
     events.append(dict(ev='stop', attr=int(pager.total), item=0, token=0, others='', opts=''))
 
 
@@ -172,8 +197,12 @@ async def run_async(pl, script, client, mod, c):
     kw.update(retry_arg(c, True))
     pager = await getattr(client, m['snake'])(request=(c.get('_reqobj') if c.get('_reqobj') is not None else base), **kw)
     spy(script, pager)
-    async for x in pager:
-        events.append(dict(ev='yield', item=item_id(c['kind'], x), attr=int(pager.total), token=0, others='', opts=''))
+    undo = caller_moves_on(c)
+    try:
+        async for x in pager:
+            events.append(dict(ev='yield', item=item_id(c['kind'], x), attr=int(pager.total), token=0, others='', opts=''))
+    finally:
+        undo()
     events.append(dict(ev='stop', attr=int(pager.total), item=0, token=0, others='', opts=''))
 
 
@@ -194,7 +223,7 @@ def main():
                     rounds = [dict(c0, _reqobj=obj), dict(c0, _reqobj=obj, id=c0['id'] + ':again')]
                 for c in rounds:
                     script.case, script.events = c, []
-                    del script.chlog[:]; del script.kwlog[:]; script.served, script.issued = 0, ''
+                    del script.chlog[:]; del script.kwlog[:]; del script.tolog[:]; script.served, script.issued = 0, ''
                     err = None
                     try:
                         run_sync(pl, script, client, mod, c)
@@ -214,7 +243,7 @@ def main():
                         rounds = [dict(c0, _reqobj=obj), dict(c0, _reqobj=obj, id=c0['id'] + ':again')]
                     for c in rounds:
                         script.case, script.events = c, []
-                        del script.chlog[:]; del script.kwlog[:]; script.served, script.issued = 0, ''
+                        del script.chlog[:]; del script.kwlog[:]; del script.tolog[:]; script.served, script.issued = 0, ''
                         err = None
                         try:
                             await run_async(pl, script, client, mod, c)
